@@ -416,4 +416,44 @@ def rule_write_accounting(ctx):
         ctx.ob(R, "reported count is the accepted count", okn, "poll_write returns Ready(Ok(n)) with n = payload.push(buf)" if okn else "the byte count reported by poll_write is not the result of payload.push", f.loc())
 
 
-RULES = [("C13.1", rule_constants), ("C13.2", rule_reader), ("C13.3", rule_flush_before_reuse), ("C13.4", rule_failures), ("C13.5", rule_buffer), ("C13.6", rule_write_accounting), ("C13.7", rule_flush_progress)]
+def rule_read_accounting(ctx):
+    R = "C13.8"
+    ctx.rule(R, "read accounting (AsyncRead contract): once poll_read has copied plaintext into the caller's ReadBuf (put_slice) and consumed it from the payload buffer, it returns Ready(Ok(())) - no Pending or error return is reachable after the delivery; a caller that passes a fresh ReadBuf per poll (read(), read_to_end, copy, a read raced in select!) would otherwise lose those bytes although the stream continues normally")
+    l = [f for f in ctx.F.fns if f.qname.endswith("AsyncRead>::poll_read") and "noise::stream::Stream" in f.qname and not f.in_testonly()]
+    ctx.floor(R, "poll_read bodies", len(l), 1)
+    for f in l:
+        T = ctx.T(f)
+        cfg = ctx.cfg(f)
+        puts = [c for c in T.calls() if c["q"].endswith("ReadBuf::put_slice") or c["q"].endswith("ReadBuf::advance") or c["q"].endswith("ReadBuf::set_filled")]
+        ctx.floor(R, "deliveries into the caller's buffer in poll_read", len(puts), 1)
+        RL = Q.ret_locals(f)
+        bad = []
+        for bi, b in enumerate(f.blocks):
+            for st in b["s"]:
+                if st["k"] == "assign" and not st["p"].get("pr") and st["p"]["l"] in RL and st["r"]["k"] == "agg":
+                    v = T.rvalue(st["r"])
+                    if v[0] == "agg" and v[2] == "Pending":
+                        bad.append((bi, "Pending"))
+                    elif v[0] == "agg" and v[2] == "Ready":
+                        inner = v[3][0][1] if v[3] else None
+                        if inner is not None and inner[0] == "agg" and inner[2] == "Err":
+                            bad.append((bi, "Err"))
+            t = b["t"]
+            if t["k"] == "call" and not t["dest"].get("pr") and t["dest"]["l"] in RL and "decl" in t["f"] and f.callee(t)[0].qname == "std::ops::FromResidual::from_residual":
+                bad.append((bi, "error propagation"))
+        for c in puts:
+            after = cfg.reach_from([c["t"]["t"]]) if "t" in c["t"] else set()
+            hit = [(bi, k) for bi, k in bad if bi in after]
+            ctx.ob(R, "no Pending/Err after plaintext was delivered", not hit, "every return reachable after put_slice is Ready(Ok(()))" if not hit else
+                   "poll_read can return %s after plaintext was copied into the caller's buffer and consumed from the payload: with a fresh ReadBuf on the next poll these bytes are lost (a hole in the stream, no error)" % sorted(set(k for _, k in hit)), f.loc(c["t"].get("ln")))
+        # what is delivered is what is consumed
+        takes = [T.args_of(c) for c in T.calls() if c["q"] == BUF + "::take"]
+        slices = [T.args_of(c) for c in puts if c["q"].endswith("put_slice")]
+        okc = bool(takes) and bool(slices) and all(len(a) > 1 for a in takes)
+        if okc:
+            n = takes[0][1]
+            okc = all(any(x == n for x in subterms(a[1])) for a in slices) and all(a[1] == n for a in takes)
+        ctx.ob(R, "consumed count = delivered count", okc, "payload.take(n) with the same n that bounds the delivered slice" if okc else "the number of bytes consumed from the payload buffer is not the number delivered", f.loc())
+
+
+RULES = [("C13.8", rule_read_accounting), ("C13.1", rule_constants), ("C13.2", rule_reader), ("C13.3", rule_flush_before_reuse), ("C13.4", rule_failures), ("C13.5", rule_buffer), ("C13.6", rule_write_accounting), ("C13.7", rule_flush_progress)]
